@@ -1,6 +1,7 @@
 SPECIFICATION Spec
 CONSTANTS
   MaxCalls = 6
+  Focus = {}
   MaxLive = 2
   Payloads = {"empty", "one", "html", "large", "partial"}
 VIEW View
